@@ -186,6 +186,17 @@ def sym_rules(facts, rep):
 def write_rules(ctx, facts, rep):
     rule = "C15-WRITE"
     ok = True
+    # the option: a password -- any password, the empty one included -- always yields keys
+    wd = facts.one(r"^write::FileOptions::with_deprecated_encryption$")
+    exw = Ex(wd)
+    vals = []
+    for bi, si, s in wd.stmts():
+        if s["k"] == "assign" and [p_.get("n") for p_ in s["place"]["p"] if p_["k"] == "field"] == ["encrypt_with"]:
+            vals.extend(alts(norm(exw.rvalue(s["rv"], (bi, si)))))
+    good = len(vals) == 1 and vals[0][0] == "agg" and vals[0][1] == "adt:Some" and vals[0][3][0][1][0] == "call" and vals[0][3][0][1][1].endswith("ZipCryptoKeys::derive") and \
+        vals[0][3][0][1][2][0] == ("arg", 2, "password") and not any(t_ and t_["k"] == "switch" for t_ in (wd.term(b_) for b_ in range(len(wd.blocks)) if not wd.blocks[b_]["cleanup"]))
+    ok &= rep.check(good, rule, "option=Some(derive(password))", where(wd, wd.span), "encrypt_with = Some(derive(password)), unconditionally",
+                    "with_deprecated_encryption sets encrypt_with to %s: some passwords leave the entry unencrypted" % [show(v)[:80] for v in vals])
     se = facts.one(ZW + "start_entry$")
     ex = Ex(se)
     for bi, si, s, fl in aggregates(se, r"types::ZipFileData$"):
